@@ -5,6 +5,7 @@ device answers with one fault from the alphabet (the other steps get valid repli
     eof               the device ends the stream (the only way a stream read returns nothing)
     prefix n          the first n bytes of the valid reply, every n in 1..len-1
     corrupt i v       the valid reply with byte i replaced by value v (thorough: all 256 v; quick: 16)
+    slow t            the valid reply, sent after t = 11, 31, 61, 3600 (virtual) seconds: a late reply is still that reply
     fill n b          n bytes of constant b, n in 1..1024 (quick: boundary lengths), b in {00, ff, 30, 80}
     long              1025 bytes (one more than the client reads at once)
 plus every pair of faults from a reduced alphabet at two different steps.
@@ -80,6 +81,8 @@ def make_reply(valid, fault):
         return bytes([fault[2]]) * fault[1]
     if k == "long":
         return (valid + bytes(1025))[:1025]
+    if k == "slow":
+        return ("delay", fault[1], valid)  # the valid reply, after that many (virtual) seconds
     if k == "valid":
         return valid
     raise KeyError(k)
@@ -87,7 +90,7 @@ def make_reply(valid, fault):
 
 def faults_for(valid, tier, parsed):
     """Single-step fault alphabet for a step whose valid reply is `valid`."""
-    fs = [("eof",), ("long",)]
+    fs = [("eof",), ("long",), ("slow", 11), ("slow", 31), ("slow", 61), ("slow", 3600)]
     fs += [("prefix", n) for n in range(1, len(valid))]
     vals = range(256) if tier == "thorough" else QV
     if parsed:
@@ -179,8 +182,9 @@ class Runner:
             else:
                 r = make_reply(valid[step], tuple(f))
                 script.append(r)
-                delivered.append(r)
-                if r is None or len(r) > 1024:
+                raw = r[2] if isinstance(r, tuple) else r
+                delivered.append(raw)
+                if raw is None or len(raw) > 1024:
                     needs_fresh = True
         w = self.world(OPS[op][0], needs_fresh or bool(case.get("cold")), cold=bool(case.get("cold")))
         if needs_fresh:
